@@ -405,7 +405,7 @@ def gen_handoff_case(rng, c08):
         elif r < 0.45:
             p["values"] = [rng.choice([0.1, 2.0, 1e+20, -0.5]) for _ in range(n)]
         if isinstance(p.get("label"), list) and len(p["label"]) != n:
-            p["label"] = "%s.%%%%" % p["key"]
+            p["label"] = "%s.%s" % (p["key"], case.get("ltoken") or "%%")
         if isinstance(p.get("label"), list):
             p["label"] = ["%s-%s" % (p["key"][:1], str(v).replace(".", "_")) for v in p["values"]]
     # every configure_study setting, non-default in most cases
@@ -472,10 +472,11 @@ def pgen_text(case):
              "def pick(i):", "    return TABLE[i * ONE]", "", "",
              "def outer(i):", "    return pick(int(math.floor(i + 0.5)))", "", "",
              "def make(k):", "    def f():", "        return TABLE[k]", "    return f", "", "",
-             "class MyGen(ParameterGenerator):", "    def __init__(self):",
-             "        super(MyGen, self).__init__()", "        self.note = 'own subclass'", "", "",
+             "class MyGen(ParameterGenerator):", "    def __init__(self, **kw):",
+             "        super(MyGen, self).__init__(**kw)", "        self.note = 'own subclass'", "", "",
              "def get_custom_generator(env, **kwargs):",
-             "    p = %s()" % ("MyGen" if kind == "sub" else "ParameterGenerator")]
+             "    p = %s(%s)" % ("MyGen" if kind == "sub" else "ParameterGenerator",
+                                "ltoken=%r" % case["ltoken"] if case.get("ltoken") is not None else "")]
     for n, p in enumerate(case["params"]):
         vals = repr(list(p["values"]))
         k = range(len(p["values"]))
@@ -526,6 +527,8 @@ def build_study_pgen(case, root, pgen, c08):
 
 
 def yaml_params_ok(case):
+    if case.get("ltoken") is not None:          # a generator with its own label token exists only as a pgen file
+        return False
     return all(isinstance(p.get("label"), str) and p["label"] and not p.get("name") and p["values"]
                for p in case["params"])
 
@@ -876,7 +879,7 @@ def handoff_part(ck, cases, c08, tag="C18_handoff"):
     lits, lit_jobs = [], []
     for job in jobs:
         case, a, b = job["case"], job["A"], job["B"]
-        slim = {k: case[k] for k in ("rlimit", "params", "steps", "cfg", "batch", "batch_extra", "stream", "pgen_kind") if k in case}
+        slim = {k: case[k] for k in ("rlimit", "params", "steps", "cfg", "batch", "batch_extra", "stream", "pgen_kind", "ltoken") if k in case}
         dist["stream:" + case["stream"]] += 1
         dist["batch:" + case["batch"]["type"]] += 1
         for key, _t in case.get("batch_extra", []):
@@ -1405,6 +1408,16 @@ def run(ck):
             snapshot_histories(ck2, 400, r2, tag="C18_search_s")
         return ck2.concrete[0] if ck2.concrete else None
 
+    # (b') histories through the REAL Slurm/LSF adapters (fake cluster, incl. id-only acceptance output): the graph is
+    # snapshotted with dill after every poll and loaded back at once, as Conductor.monitor_study does (harness/exec_real.py)
+    try:
+        from harness import exec_real
+        n6, d6 = exec_real.snapshot_histories(ck, 60 if ck.tier == "quick" else 1500)
+        ck.cov["traces_validated_against_impl"] = ck.cov.get("traces_validated_against_impl", 0) + n6
+        ck.cov.setdefault("input_distribution", {})["real_adapter_snapshot_histories"] = d6
+    except Exception:
+        import traceback
+        ck.mismatch("the real-adapter snapshot part could not run to completion", None, traceback.format_exc()[-3000:])
     from harness import e2e
     e2e.sweep()
     shm_sweep()
